@@ -102,6 +102,66 @@ Proof.
   destruct (rl >=? 0) eqn:E3; [|lia]. f_equal. lia.
 Qed.
 
+Lemma list_readSize_le lp : list_readSize lp <= 4294967288.
+Proof.
+  unfold list_readSize. destruct (p_valid lp); [|lia]. cbv zeta.
+  destruct (times _ (p_len lp)) as [x|] eqn:E; [|unfold maxSegmentSize; lia].
+  apply times_spec in E. unfold maxSegmentSize in E. lia.
+Qed.
+
+(* the pointer word of a non-composite list placed near *)
+Lemma read_near_list strict M a taddr lt n dep :
+  0 <= lt < 7 -> 0 <= n < 536870912 ->
+  0 <= a -> a mod 8 = 0 -> a + 8 <= zlen M -> zlen M <= 4294967288 ->
+  0 <= taddr -> taddr mod 8 = 0 ->
+  let es := match elementSize (rawListPointer 0 lt n) with Some e => e | None => mkOS 0 0 end in
+  let lsize := if lt =? 1 then bitListSize n else totalSize es * n in
+  taddr + lsize <= zlen M ->
+  word_is M a (withOffset (rawListPointer 0 lt n) (nearPointerOffset a taddr)) -> dep <> 0 ->
+  exists rl',
+  readPtr strict [M] 4294967288 0 M a dep =
+  (Ok (mkPtr true 0 taddr n (if lt =? 1 then mkOS 0 0 else es) (uint_dec dep) KList false (lt =? 1) false), rl').
+Proof.
+  intros Hlt Hn Ha Ham Hab Hl Ht Htm es lsize Htb Hw Hd.
+  set (raw := rawListPointer 0 lt n) in *.
+  destruct (list_pointer_roundtrip 0 lt n ltac:(unfold off_ok; lia) ltac:(lia) Hn) as (P64 & Pt & Po & Plt & Pn).
+  fold raw in P64, Pt, Po, Plt, Pn.
+  destruct (HeapInv.fields_list lt n ltac:(lia) Hn) as (_ & Rm4 & _). fold raw in Rm4.
+  assert (Rok : raw_ok raw).
+  { split; [exact P64|]. split; [lia|]. split; [exact Po|]. intros E0. rewrite E0 in Rm4. cbv in Rm4. discriminate Rm4. }
+  assert (Hes : elementSize raw = Some es).
+  { unfold es, elementSize. rewrite Plt. cbv zeta.
+    assert (lt = 0 \/ lt = 1 \/ lt = 2 \/ lt = 3 \/ lt = 4 \/ lt = 5 \/ lt = 6) as [->|[->|[->|[->|[->|[->| ->]]]]]] by lia; reflexivity. }
+  assert (Hts : totalListSize raw = Some (Some lsize)).
+  { unfold totalListSize. rewrite Plt, Pn, Hes. cbv zeta. unfold lsize.
+    destruct (lt =? 1) eqn:E1; [reflexivity|]. destruct (lt =? 7) eqn:E7; [lia|]. unfold timesUnchecked.
+    assert (0 <= totalSize es <= 8).
+    { unfold es, elementSize. rewrite Plt. cbv zeta.
+      assert (lt = 0 \/ lt = 2 \/ lt = 3 \/ lt = 4 \/ lt = 5 \/ lt = 6) as [->|[->|[->|[->|[->| ->]]]]] by lia; cbv; split; discriminate. }
+    f_equal. f_equal. unfold u32. nia. }
+  assert (L0 : 0 <= lsize).
+  { unfold lsize. destruct (lt =? 1); [unfold bitListSize, u32; lia|]. unfold totalSize, u32. nia. }
+  pose proof (near_resolves M a taddr raw Rok Ha Ham Hab Hl ltac:(lia) Htm Hw) as R.
+  pose proof (resolved_read_list strict [M] 4294967288 0 a 0 taddr raw dep lsize es R Pt ltac:(rewrite Plt; lia) Hts Hes) as RR.
+  cbn [Z.to_nat nth] in RR. rewrite Plt, Pn in RR. cbv zeta in RR.
+  assert (RB : regionInBounds M taddr lsize = true).
+  { unfold regionInBounds, addSize, maxSegmentSize. cbv zeta. destruct (taddr + lsize >? 4294967288) eqn:E; lia. }
+  specialize (RR RB Hd (list_readSize_le _)).
+  destruct (lt =? 1) eqn:E1; cbn [p_size p_bit] in RR; eexists; exact RR.
+Qed.
+
+(* element size of a list pointer word by its type code *)
+Definition es_of (lt : Z) : ObjectSize :=
+  if lt =? 2 then mkOS 1 0 else if lt =? 3 then mkOS 2 0 else if lt =? 4 then mkOS 4 0
+  else if lt =? 5 then mkOS 8 0 else if lt =? 6 then mkOS 0 1 else mkOS 0 0.
+
+Lemma elementSize_raw lt n : 0 <= lt < 7 -> 0 <= n < 536870912 -> elementSize (rawListPointer 0 lt n) = Some (es_of lt).
+Proof.
+  intros Hlt Hn. destruct (list_pointer_roundtrip 0 lt n ltac:(unfold off_ok; lia) ltac:(lia) Hn) as (_ & _ & _ & Plt & _).
+  unfold elementSize. rewrite Plt. cbv zeta. unfold es_of.
+  assert (lt = 0 \/ lt = 1 \/ lt = 2 \/ lt = 3 \/ lt = 4 \/ lt = 5 \/ lt = 6) as [->|[->|[->|[->|[->|[->| ->]]]]]] by lia; reflexivity.
+Qed.
+
 (* ------------------------------------------------------------------ sub / word_is bookkeeping *)
 Lemma fold_res_app {A} (f : A -> Z -> res A) : forall l1 l2 a,
   fold_res (l1 ++ l2) a f = bind (fold_res l1 a f) (fun a' => fold_res l2 a' f).
